@@ -409,3 +409,42 @@ def replay_sep_inside(inner, open_kind, tok, ch):
         docs.append((doc, shape(w.parse(doc), t)))
     bad = docs[0][1] != docs[1][1]
     return ("parse(" + repr(docs[0][0]) + ")", bad, f"a cell separator inside an open {INNER_KINDS[inner]} construct is not treated as text: tree {docs[0][1]}, with plain text in its place {docs[1][1]}")
+
+
+# ---------------------------------------------------------------- parser flags left behind by an earlier parse() call
+CARRY_DOC = "{|class=\"c\"\n|+ cap\n|-\n! h1 !! h2\n|-\n| a || [[b|c]]\n|}\n<div id=\"d\"><span>s</span></div>"
+
+
+def _full(n):
+    if isinstance(n, WikiNode):
+        return (n.kind.name, n.sarg, dict(n.attrs) if n.attrs else {}, [_full(c) for c in n.children], [[_full(c) for c in a] for a in n.largs])
+    return n
+
+
+_fresh = Wtp(quiet=True, quiet_output=True)
+_fresh.start_page("T")
+CARRY_WANT = _full(_fresh.parse(CARRY_DOC))
+
+
+def carry_over(pre_parse: bool, bol: bool, wsp: bool, supp: bool) -> bool:
+    """whatever per-parse flags an earlier parse() on the same context left behind (an unclosed <pre>, a line that ended in
+    the middle of a construct ...), parse() of a table / HTML document gives the tree a fresh context gives"""
+    ctx.start_page("T")
+    ctx.pre_parse = pre_parse
+    ctx.beginning_of_line = bol
+    ctx.wsp_beginning_of_line = wsp
+    ctx.suppress_special = supp
+    reset_begline(ctx)
+    return _full(ctx.parse(CARRY_DOC)) == CARRY_WANT
+
+
+def replay_carry_over(pre_parse, bol, wsp, supp):
+    w = Wtp(quiet=True, quiet_output=True)
+    for first in ("<pre>unclosed", "x\n {{t|", "[[a|", "''i", "<nowiki>"):
+        w.start_page("T")
+        w.parse(first)
+        w.start_page("T")
+        got = _full(w.parse(CARRY_DOC))
+        if got != CARRY_WANT:
+            return (f"one context: parse({first!r}); start_page; parse({CARRY_DOC!r})", True, f"the table / HTML document parses differently after the first call: {str(got)[:200]}")
+    return ("parse histories", False, "")
